@@ -112,7 +112,7 @@ type histStats struct {
 // on a fresh evaluator holding the same variables.
 func runHistory(c *HistCase) (histStats, error) {
 	var st histStats
-	mk := func(vars map[string]lang.Value) (*eng.Runner, error) { return prepared(c.Script, vars, c.NoOpt) }
+	mk := func(vars map[string]lang.Value) (*eng.Runner, error) { return preparedShort(c.Script, vars, c.NoOpt) }
 	cancel := func() {}
 	if c.Cancelable {
 		ctx, cf := context.WithCancel(context.Background())
